@@ -13,8 +13,9 @@ def _fmt(x):
     return repr(float(x)) if isinstance(x, float) else str(x)
 
 
-def gen_platform(rng, feat, profiles=True, want_fail=True):
-    """Returns (lines, hosts, links(all plain link names usable by setbw/linkoff), disks, routes info)."""
+def gen_platform(rng, feat, profiles=True, want_fail=True, avoid=()):
+    """Returns (lines, hosts, links(all plain link names usable by setbw/linkoff), disks, speeds).
+    avoid: known-defect triggers to leave out ("router", "speed-change", "bw-change")."""
     L = []
     layout = rng.choice(["flat", "flat", "two", "nested"])
     feat.add("layout:" + layout)
@@ -64,7 +65,7 @@ def gen_platform(rng, feat, profiles=True, want_fail=True):
             else:
                 links.append(ln)
         rt = None
-        if len(leaves) > 1 and rng.random() < 0.6:
+        if len(leaves) > 1 and rng.random() < 0.6 and "router" not in avoid:
             rt = "r_" + z
             L.append("RT %s %s" % (z, rt))
             feat.add("router")
@@ -82,29 +83,25 @@ def gen_platform(rng, feat, profiles=True, want_fail=True):
         links.append("l_zb_bb")
         L.append("ZR zb zb1 zb2 1 l_zb_bb N")
         L.append("GW zb %s" % gw["zb1"])
-        for z, _ in leaves[1:]:
-            L.append("SEAL " + z)
-        L.append("SEAL zb")
-        L.append("SEAL za")
+        seals = ["SEAL " + z for z, _ in leaves[1:]] + ["SEAL zb", "SEAL za"]
         L.append("L - l_bb 1.25e8 1e-3 %s" % rng.choice(["S", "F"]))
         links.append("l_bb")
         L.append("ZR - za zb 1 l_bb N")
     elif layout == "two":
-        for z, _ in leaves:
-            L.append("SEAL " + z)
+        seals = ["SEAL " + z for z, _ in leaves]
         L.append("L - l_bb 1.25e8 1e-3 %s" % rng.choice(["S", "F"]))
         links.append("l_bb")
         L.append("ZR - za zb 1 l_bb N")
     else:
-        L.append("SEAL za")
-    # profiles
+        seals = ["SEAL za"]
+    # profiles (must be attached before the zones are sealed)
     if profiles:
-        if rng.random() < 0.35:
+        if rng.random() < 0.35 and "speed-change" not in avoid:
             h = rng.choice(hosts)
             pts = sorted(rng.sample([0.5, 1.0, 1.5, 2.0, 2.5, 3.0, 4.0], rng.randint(1, 3)))
             L.append("P S %s %s %d %s" % (h, rng.choice(["-1", "5"]), len(pts), " ".join("%s %s" % (_fmt(d), _fmt(rng.choice([0.5, 0.25, 1.0]))) for d in pts)))
             feat.add("profile:speed")
-        if rng.random() < 0.35:
+        if rng.random() < 0.35 and "bw-change" not in avoid:
             l = rng.choice(links)
             pts = sorted(rng.sample([0.5, 1.0, 1.5, 2.0, 2.5, 3.0, 4.0], rng.randint(1, 3)))
             L.append("P B %s %s %d %s" % (l, rng.choice(["-1", "5"]), len(pts), " ".join("%s %s" % (_fmt(d), _fmt(rng.choice([5e7, 1e8, 2.5e7]))) for d in pts)))
@@ -124,18 +121,56 @@ def gen_platform(rng, feat, profiles=True, want_fail=True):
             a = rng.choice([0.5, 1.0, 1.5, 2.0])
             L.append("P K %s -1 2 %s 0 %s 1" % (l, _fmt(a), _fmt(a + rng.choice([0.5, 1.0]))))
             feat.add("profile:link-state")
+    L += seals
     L.append("X")
-    return L, hosts, links, disks, speeds
+    return L, hosts, links, disks, speeds, layout
 
 
-def gen_s4u(rng, force=None):
-    """One scenario. force: optional set of feature switches {"vm","fail","maestro","user"} to bias the draw."""
+def has(opts, name):
+    return (name + ":yes") in opts
+
+
+def needs_platform(opts):
+    """Mirror of TRACE_needs_platform()."""
+    return any(has(opts, "tracing/" + n) for n in ("actor", "vm", "categorized", "uncategorized", "platform", "smpi/group"))
+
+
+def known_triggers(opts):
+    """Workload features that hit an *open known finding* of C47 under this option set (see known_findings.d/C47.json).
+    Tame cases leave them out so that the rest of the trace machinery is still observed; wild cases keep everything."""
+    av = set()
+    if needs_platform(opts):
+        av.add("router")                     # RouterContainer dereferences the not-yet-set englobing zone: SIGSEGV
+        if "tracing/platform/topology:no" not in opts:
+            av.add("siblings")               # zone containers are chained: out_of_range in recursiveGraphExtraction
+        if not (has(opts, "tracing/categorized") or has(opts, "tracing/uncategorized") or has(opts, "tracing/platform")):
+            av |= {"speed-change", "bw-change"}      # speed/bandwidth variable types never declared: TracingError
+        if has(opts, "tracing/disable_power"):
+            av.add("speed-change")
+        if has(opts, "tracing/disable_link"):
+            av.add("bw-change")
+        if has(opts, "tracing/categorized") and not has(opts, "tracing/uncategorized"):
+            av.add("categories")             # categorized utilization is written to the uncategorized variable: TracingError
+        if has(opts, "tracing/actor"):
+            av.add("maestro-comm")           # HOST_STATE value "start" never declared: TracingError
+    return av
+
+
+def gen_s4u(rng, opts=(), tame=False, force=None):
+    """One scenario. force: optional set of feature switches {"vm","fail","maestro"} to bias the draw.
+    Returns the scenario and the (possibly extended) option list."""
     force = force or set()
+    opts = list(opts)
     feat = set()
+    avoid = known_triggers(opts) if tame else set()
     want_fail = "nofail" not in force and (("fail" in force) or rng.random() < 0.5)
-    plat, hosts, links, disks, speeds = gen_platform(rng, feat, want_fail=want_fail)
+    plat, hosts, links, disks, speeds, layout = gen_platform(rng, feat, want_fail=want_fail, avoid=avoid)
+    if "siblings" in avoid and layout != "flat":
+        opts.append("tracing/platform/topology:no")
     L = list(plat)
     cats = ["c%d" % i for i in range(rng.choice([0, 1, 2, 2]))]
+    if "categories" in avoid:
+        cats = []
     for c in cats:
         L.append("cat %s %s" % (c, rng.choice(["-", "0.5"])))
     hvars = ["hv%d" % i for i in range(rng.choice([0, 1, 2]))]
@@ -167,7 +202,7 @@ def gen_s4u(rng, force=None):
         if rng.random() < 0.5:
             L.append("M exec %s %s %s" % (rng.choice(hosts), _fmt(rng.choice([5e8, 1e9, 3e9])), rng.choice(cats + ["-"])))
             feat.add("maestro:exec")
-        elif len(hosts) >= 2:
+        elif len(hosts) >= 2 and "maestro-comm" not in avoid:
             a, b = rng.sample(hosts, 2)
             L.append("M sendto %s %s %s %s" % (a, b, _fmt(rng.choice([1e6, 1e8])), rng.choice(cats + ["-"])))
             feat.add("maestro:sendto")
@@ -246,11 +281,11 @@ def gen_s4u(rng, force=None):
                 ops.append("sleep %s" % _fmt(rng.choice([0.0, 0.5])))
                 ops.append("linkon %s" % l)
                 feat.add("link-off")
-            elif r < 0.89:
+            elif r < 0.89 and "speed-change" not in avoid:
                 h = rng.choice(hosts)
                 ops.append("pstate %s %d" % (h, rng.randrange(len(speeds[h]))))
                 feat.add("pstate")
-            elif r < 0.90:
+            elif r < 0.90 and "bw-change" not in avoid:
                 ops.append("setbw %s %s" % (rng.choice(links), _fmt(rng.choice([5e7, 1e8, 2e8]))))
                 feat.add("setbw")
             elif r < 0.93 and hvars:
@@ -304,7 +339,7 @@ def gen_s4u(rng, force=None):
                 ops.append("yield")
         L += ops
     L.append("end")
-    return {"text": "\n".join(L) + "\n", "feat": sorted(feat), "uses_vm": use_vm}
+    return {"text": "\n".join(L) + "\n", "feat": sorted(feat), "uses_vm": use_vm, "tame": tame}, opts
 
 
 S4U_OPTION_POOL = [
